@@ -2199,7 +2199,12 @@ impl<'input, T: Input> Scanner<'input, T> {
                 break;
             }
 
-            if self.flow_level > 0 && self.input.peek() == '-' && is_flow(self.input.peek_nth(1)) {
+            // This is about the first character of the scalar only: `[a -, b]` is fine.
+            if self.flow_level > 0
+                && string.is_empty()
+                && self.input.peek() == '-'
+                && is_flow(self.input.peek_nth(1))
+            {
                 return Err(ScanError::new_str(
                     self.mark,
                     "plain scalar cannot start with '-' followed by ,[]{}",
